@@ -46,6 +46,56 @@ fn main() {
             };
             std::process::exit(kernel::worker::run_replay_worker(check, &v));
         }
+        "minimise-worker" => {
+            if args.len() < 4 {
+                usage();
+            }
+            let Some(check) = checks::find(&args[2]) else { usage() };
+            let s = std::fs::read_to_string(&args[3]).unwrap_or_default();
+            let Ok(v) = serde_json::from_str::<serde_json::Value>(&s) else {
+                std::process::exit(2)
+            };
+            std::process::exit(kernel::worker::run_minimise_worker(check, &v));
+        }
+        "run-json" => {
+            // debugging aid: run a Module given as JSON under a collector plan, print what happened
+            let Some(path) = args.get(2) else { usage() };
+            let txt = std::fs::read_to_string(path).unwrap_or_default();
+            let Ok(m) = serde_json::from_str::<cao_lang::compiler::Module>(&txt) else {
+                eprintln!("not a Module");
+                std::process::exit(2)
+            };
+            kernel::worker::install_panic_hook();
+            let gc = match args.get(3).map(|s| s.as_str()) {
+                Some("every") => ctl::vmctl::GcPlan::Every,
+                Some("never") => ctl::vmctl::GcPlan::Never,
+                _ => ctl::vmctl::GcPlan::Natural,
+            };
+            let quarantine = gc != ctl::vmctl::GcPlan::Natural;
+            match checks::vmcommon::compile_module(&m) {
+                checks::vmcommon::Compiled::Ok(p) => {
+                    println!("{}", p.disassemble_string());
+                    let cfg = ctl::vmctl::CtlConfig { gc, quarantine, event_log: true, ..Default::default() };
+                    let knobs = ctl::vmrun::Knobs { budget: 100_000, ..Default::default() };
+                    let out = ctl::vmrun::run_program(&p, &knobs, cfg, Default::default());
+                    println!("result: {} {}", out.result, out.error_msg);
+                    for (k, v) in out.globals.iter() {
+                        println!("global {k} = {}", v.short());
+                    }
+                    println!("end stack height {} call depth {} dangling-open-upvalue sightings {}", out.end_stack_height, out.end_call_depth, out.counters.dangling_open_upvalue);
+                    for f in out.findings.iter() {
+                        println!("finding: {} {}", f.kind, f.what);
+                    }
+                    if std::env::var_os("CAOSIM_EVENTS").is_some() {
+                        for e in out.events.iter() {
+                            println!("{e}");
+                        }
+                    }
+                }
+                checks::vmcommon::Compiled::Err(e) => println!("compile error: {e}"),
+                checks::vmcommon::Compiled::Panic(p) => println!("compile panic: {}", p.msg),
+            }
+        }
         "replay" => {
             if args.len() < 4 {
                 usage();
